@@ -90,6 +90,15 @@ func runC17(c core.Case) core.Result {
 	sl := skiplist.New(maxLevel, p)
 	var m sortedModel
 	var trace []string
+	// the same byte slice is handed to Set for different keys now and then (a caller may do that),
+	// and slices handed out by the list are kept and must never change afterwards
+	var inputs [][]byte
+	type held struct {
+		what  string
+		live  []byte
+		clone string
+	}
+	var returned []held
 	overwrites, deletes, lbProbes, scans := 0, 0, 0, 0
 	fail := func(sig, f string, a ...any) {
 		res.Violate("C17", "C17/"+sig, "%s\nmaxLevel=%d p=%.3f users=%q\nlast ops: %s", fmt.Sprintf(f, a...), maxLevel, p, users, strings.Join(trace[max(0, len(trace)-12):], " ; "))
@@ -122,8 +131,15 @@ func runC17(c core.Case) core.Result {
 			if r.Intn(8) == 0 {
 				e.val = ""
 			}
+			val := []byte(e.val)
+			if len(inputs) > 0 && r.Intn(5) == 0 {
+				val = inputs[r.Intn(len(inputs))] // the very same slice again, for this key
+				e.val = string(val)
+			} else if len(val) > 0 {
+				inputs = append(inputs, val)
+			}
 			trace = append(trace, fmt.Sprintf("Set(%q,%q,%v)", key, e.val, e.tomb))
-			sl.Set(types.Entry{Key: key, Value: []byte(e.val), Tombstone: e.tomb, Version: int64(ts)})
+			sl.Set(types.Entry{Key: key, Value: val, Tombstone: e.tomb, Version: int64(ts)})
 			if m.set(e) {
 				overwrites++
 			}
@@ -144,6 +160,8 @@ func runC17(c core.Case) core.Result {
 			want := j < len(m.es) && m.es[j].user == u && m.es[j].ts == ts
 			if ok != want || (ok && !slSame(got, m.es[j])) {
 				fail("get", "Get(%q) = ({%q %q %v %d}, %v), model found=%v", key, got.Key, got.Value, got.Tombstone, got.Version, ok, want)
+			} else if ok && len(got.Value) > 0 && len(returned) < 64 {
+				returned = append(returned, held{fmt.Sprintf("Get(%q) at op %d", key, i), got.Value, string(got.Value)})
 			}
 		case x < 88: // LowerBound
 			trace = append(trace, fmt.Sprintf("LowerBound(%q)", key))
@@ -181,6 +199,14 @@ func runC17(c core.Case) core.Result {
 	if res.Verdict == "" {
 		if d := slListSame(sl.All(), m.es); d != "" {
 			fail("all", "final All(): %s", d)
+		}
+	}
+	if res.Verdict == "" {
+		for _, h := range returned {
+			if string(h.live) != h.clone {
+				fail("returned-value-changed", "the value returned by %s was %q and has become %q after later Set calls", h.what, h.clone, h.live)
+				break
+			}
 		}
 	}
 	res.AddObs("ops", int64(nops))
